@@ -358,10 +358,11 @@ class NegateExpression(UnaryExpression):
             # "--a" is not valid input, and "-" directly before a literal would be read as
             # a negative literal
             inner = f"({inner})"
-        elif isinstance(inner, PowerExpression) and isinstance(
-            inner.left, ConstantExpression
-        ):
-            # "-2^2" would be read as (-2)^2
+        elif isinstance(inner, (BinaryExpression, FactorialExpression)) and str(inner)[
+            :1
+        ] in "0123456789.":
+            # a "-" directly before a literal makes a negative literal: "-2^2" would be
+            # read as (-2)^2, "-2!" as (-2)! and "-2! * 3" as (-2)! * 3
             inner = f"({inner})"
         return self.with_color("-{}".format(inner))
 
